@@ -27,6 +27,38 @@ func (g *Gen) readOp(c int) Op {
 	return mkOp(c, catalog[n](g)...)
 }
 
+// a write aimed at key k, chosen to suit (or deliberately not suit) the type the key was seeded with
+func (g *Gen) typedWrite(c int, k string) Op {
+	other := g.key()
+	pickOp := func(cands ...[]string) Op { return mkOp(c, cands[g.r.Intn(len(cands))]...) }
+	switch g.r.Intn(6) {
+	case 0: // string operations
+		return pickOp([]string{"APPEND", k, g.pick("", "x")}, []string{"INCR", k}, []string{"SETRANGE", k, g.pick("0", "2"), g.pick("", "zz")},
+			[]string{"SETBIT", k, g.pick("0", "7", "9"), g.pick("0", "1")}, []string{"GETSET", k, g.val()}, []string{"GETDEL", k},
+			[]string{"SET", k, g.val()}, []string{"SET", k, g.val(), "XX"}, []string{"SET", k, g.val(), "NX"}, []string{"SETNX", k, "v"},
+			[]string{"MSET", other, "1", k, "2"}, []string{"MSETNX", other, "1", k, "2"}, []string{"GETEX", k, "PERSIST"}, []string{"GETEX", k, "EX", "100"}, []string{"GETEX", k},
+			[]string{"BITFIELD", k, "SET", "u8", "0", g.pick("0", "65")}, []string{"BITFIELD", k, "GET", "u8", "0"}, []string{"INCRBY", k, "0"}, []string{"DECRBY", k, "5"})
+	case 1: // list operations
+		return pickOp([]string{"LPUSH", k, g.elem()}, []string{"RPUSH", k, g.elem()}, []string{"LPUSHX", k, g.elem()}, []string{"LPOP", k}, []string{"RPOP", k}, []string{"LPOP", k, "0"},
+			[]string{"LSET", k, g.pick("0", "-1", "5"), g.elem()}, []string{"LINSERT", k, g.pick("BEFORE", "AFTER"), g.elem(), "n"}, []string{"LREM", k, "0", g.elem()},
+			[]string{"LTRIM", k, g.pick("0", "1"), g.pick("-1", "0", "-2")}, []string{"LMOVE", k, other, "LEFT", "RIGHT"}, []string{"LMOVE", other, k, "LEFT", "RIGHT"},
+			[]string{"LMOVE", k, k, "LEFT", "RIGHT"}, []string{"RPOPLPUSH", k, other}, []string{"LMPOP", "1", k, "LEFT"}, []string{"BLPOP", k, "0.01"}, []string{"BRPOPLPUSH", k, other, "0.01"})
+	case 2: // hash operations: new field, existing field with another value, with the same value, removal, increment
+		return pickOp([]string{"HSET", k, g.field(), g.pick("1", "2", "x")}, []string{"HSET", k, "f1", g.pick("1", "2")}, []string{"HMSET", k, "f1", "9", "f2", "9"},
+			[]string{"HSETNX", k, g.field(), "n"}, []string{"HDEL", k, g.field()}, []string{"HDEL", k, "nofield"}, []string{"HINCRBY", k, g.field(), g.pick("0", "1", "-1")})
+	case 3: // set operations
+		return pickOp([]string{"SADD", k, g.member()}, []string{"SREM", k, g.member()}, []string{"SREM", k, "nomember"}, []string{"SMOVE", k, other, g.member()}, []string{"SMOVE", other, k, g.member()},
+			[]string{"SINTERSTORE", k, other, other}, []string{"SUNIONSTORE", k, other}, []string{"SDIFFSTORE", k, k, other})
+	case 4: // keyspace operations
+		return pickOp([]string{"DEL", k}, []string{"UNLINK", k}, []string{"DEL", "nokey"}, []string{"RENAME", k, other}, []string{"RENAME", other, k}, []string{"RENAME", k, k},
+			[]string{"RENAMENX", other, k}, []string{"COPY", other, k}, []string{"COPY", other, k, "REPLACE"}, []string{"COPY", k, other, "REPLACE"},
+			[]string{"BITOP", "NOT", k, other}, []string{"BITOP", "AND", k, k, other}, []string{"TOUCH", k}, []string{"TYPE", k})
+	default: // expiry operations
+		return pickOp([]string{"EXPIRE", k, "100"}, []string{"PEXPIRE", k, "100000", g.pick("NX", "XX", "GT", "LT")}, []string{"PERSIST", k}, []string{"EXPIRE", k, "-1"},
+			[]string{"EXPIREAT", k, "4102444800"}, []string{"PEXPIRE", k, "0"}, []string{"TTL", k}, []string{"EXPIRE", "nokey", "10"})
+	}
+}
+
 // a command that the server rejects when it is received (unknown, or wrong arity)
 func (g *Gen) rejectedOp(c int) Op {
 	switch g.r.Intn(4) {
@@ -128,6 +160,7 @@ func init() {
 		}
 		return runHistories(cfg, res, n, func(i int) History {
 			var ops []Op
+			g.newHistory()
 			ops = append(ops, g.seedOps(1)...)
 			nw := 1 + g.r.Intn(2)
 			w := []string{g.kw("watch")}
@@ -135,9 +168,12 @@ func init() {
 				w = append(w, g.key())
 			}
 			ops = append(ops, mkOp(1, w...))
+			watched := w[1:]
 			mod := func() Op {
 				who := 1 + g.r.Intn(2)
 				switch x := g.r.Intn(10); {
+				case x < 4:
+					return g.typedWrite(who, watched[g.r.Intn(len(watched))])
 				case x < 6:
 					return g.writeOp(who)
 				case x < 8:
@@ -153,6 +189,12 @@ func init() {
 			}
 			for j := 0; j < g.r.Intn(3); j++ {
 				ops = append(ops, mod())
+			}
+			if g.chance(0.12) {
+				ops = append(ops, mkOp(2, "PEXPIRE", watched[0], "30"))
+				o := mkOp(2, "PING")
+				o.SleepMs = 80
+				ops = append(ops, o)
 			}
 			ops = append(ops, mkOp(1, g.kw("multi")))
 			for j := 0; j < g.r.Intn(2); j++ {
